@@ -1325,7 +1325,8 @@ func (sa *Application) tryPlaceholderAllocate(nodeIterator func() NodeIterator, 
 	// we checked all placeholders and asks nothing worked as yet
 	// pick the first fit and try all nodes if that fails give up
 	var allocResult *AllocationResult
-	if phFit != nil && reqFit != nil {
+	// the placeholder kept for this could have been cancelled since, by a larger request of the same task group
+	if phFit != nil && reqFit != nil && !phFit.IsReleased() {
 		resKey := reqFit.GetAllocationKey()
 		iterator.ForEachNode(func(node *Node) bool {
 			// the node the placeholder runs on was tried for the in place swap already: adding the real allocation
